@@ -41,6 +41,7 @@ from ..ispace_lite import (
     covered,
     deps_of,
     func_params,
+    has_havoc,
     head_name,
     leaves,
     positional_args,
@@ -1020,6 +1021,8 @@ def rule_collection_slices(rep: Report, ix: Index) -> None:
         cname = cur[0]
         S = L.carried[cname]
         init = L.pre_env.get(cname)
+        if has_havoc(p.env[cname]) or has_havoc(init) or any(has_havoc(e[2].lo) or has_havoc(e[2].hi) for e in slices):
+            raise AnalysisError(f"{f.ref}: the slice cursor depends on a statement outside the grammar: {ev.skipped}")
         if not (isinstance(init, sp.Basic) and init == 0):
             problems.append(("start", f"cursor `{cname}` starts at {init}, not 0", L.node.lineno))
         step = sp.simplify(p.env[cname] - S)
@@ -1098,6 +1101,8 @@ def rule_collection_slices(rep: Report, ix: Index) -> None:
                 problems.append(("fill", f"`{lname}` is not empty when the loop starts", L.node.lineno))
             len0 = PyList(base=L.carried[lname]).length()
             len1 = p.env[lname].length()
+            if has_havoc(len1) or has_havoc(apps[0][1]):
+                raise AnalysisError(f"{g.ref}: the slice bookkeeping depends on a statement outside the grammar: {ev.skipped}")
             sl = apps[0][1].args[1]
             if head_name(sl) != "slice":
                 problems.append(("fill", f"appended value `{sl}` is not a slice", apps[0][2].lineno))
